@@ -92,14 +92,14 @@ def cfg_C04(tier, rng):
 
 
 def cfg_C05(tier, rng):
-    k = 25 if tier == QUICK else 120
+    k = 10 if tier == QUICK else 100
     charts = gc.family_f3(rng, k, nmin=3, nmax=5, tmin=3, tmax=6, nev=2, max_oracle=2)
     return [dict(name='queues', charts=charts,
                  consts=dict(MaxQ=2 if tier == QUICK else 3, MaxClk=2 if tier == QUICK else 3,
                              Delays={0, 1, 2}, Advances={1, 2}, Params={0},
-                             MaxLevel=7 if tier == QUICK else 9),
+                             MaxLevel=6 if tier == QUICK else 8),
                  variants=[dict(variant='api')],
-                 random=dict(count=200 if tier == QUICK else 2000, length=25, delays=(0, 0, 1, 2, 3),
+                 random=dict(count=300 if tier == QUICK else 3000, length=30, delays=(0, 0, 1, 2, 3),
                              advances=(1, 2), params=(0, 7), maxq=5,
                              family=lambda r, kk: gc.family_f3(r, kk, nmin=4, nmax=8)))]
 
@@ -185,6 +185,7 @@ def run_stage(prop, tier, seed, stage, rng):
     out['lines_evaluated'] = len(alluids)
     viol, cross, divs = [], Counter(), 0
     seen = set()
+    divsamples = []
     for t in traces:
         for ln, u in enumerate(t['uids']):
             if u in seen:
@@ -193,6 +194,9 @@ def run_stage(prop, tier, seed, stage, rng):
             r = reports[u]
             if r['div']:
                 divs += 1
+                if len(divsamples) < 3:
+                    divsamples.append({'chart': t['ci'], 'kw': t['kw'], 'hist': t['hist'][:ln + 1],
+                                       'observed': t['lines'][ln], 'model': r.get('pred')})
             mine = [[ln + 1, b[0], b[1]] for b in r['bad'] if b[0] == prop]
             for b in r['bad']:
                 if b[0] != prop:
@@ -200,6 +204,7 @@ def run_stage(prop, tier, seed, stage, rng):
             if mine:
                 viol.append((dict(t, hist=t['hist'][:ln + 1], lines=t['lines'][:ln + 1]), mine, r))
     out['divergences'] = divs
+    out['divergence_samples'] = divsamples
     out['cross_failures'] = dict(cross)
     out['wall_s'] = round(time.time() - t0, 2)
     samples = []
